@@ -85,6 +85,8 @@ def build_roots(prog):
             roots.append((fi, "mutator"))
         elif name in ("__str__",):
             roots.append((fi, "pure"))
+        elif name.startswith("_") and not name.startswith("__"):
+            pass  # private helpers of the index: analysed through the public methods that call them (inlined)
         else:
             roots.append((fi, "pure"))
     roots.append((prog.func("iindexes", "column_stack"), "pure"))
